@@ -101,6 +101,17 @@ CHECKS = {
              'assumptions), CPython. Known defects are listed in known_findings.json.',
         technique='explicit-state BFS over operation histories on the real objects + reference-model comparison',
         ref='3/C19'),
+    'C20': dict(
+        text='Exhaustive single-fault enumeration with planted tokens on the real front end (check-express -w all): every semantic fault of the C04 classes at '
+             'every declaration position, 7 lexical faults (illegal characters, non-ASCII byte, _identifier, bad encoded-string digit / digit count) in EVERY token '
+             'gap of 4 schemas, wrong argument counts; every diagnostic is matched against the message formats of the diagnostics table and each quoted '
+             'argument must occur in the input (never empty/foreign), the diagnostic raised for the fault must quote the planted token, every line must carry '
+             '"<input file>:<line>:". Switches: for every warning class c the runs {none, -w c, -w all, -w all -i c, -i c} on 8 schemas (one invalid): exit '
+             'status and ERROR lines invariant, -w c adds exactly the lines that -i c removes, classes disjoint.',
+        note='Trusted: the format table is read from src/express/error.c at run time; a fault that produces no diagnostic at all is not judged here (C04 judges '
+             'acceptance); parser messages (SYNTAX) quote grammar symbols and are exempt from the argument check.',
+        technique='exhaustive single-fault mutant enumeration x configuration switches on the real tool + argument-extraction oracle',
+        ref='3/C20'),
 }
 
 
